@@ -10,8 +10,10 @@ import (
 	"path/filepath"
 	"regexp"
 	"sort"
+	"strconv"
 	"strings"
 	"sync"
+	"syscall"
 	"time"
 
 	"verif/ev"
@@ -145,10 +147,25 @@ func (d *driver) run() int {
 	if st, err := os.Stat(base); err != nil || !st.IsDir() {
 		base = os.TempDir()
 	}
+	// scratch of checks that were killed (the scratch is memory when it is on
+	// tmpfs: one leftover of a flooded run once filled it)
+	if old, _ := filepath.Glob(filepath.Join(base, "verif.[0-9]*")); len(old) > 0 {
+		for _, o := range old {
+			pid, err := strconv.Atoi(strings.TrimPrefix(filepath.Base(o), "verif."))
+			if err != nil || pid == os.Getpid() || syscall.Kill(pid, 0) == nil {
+				continue
+			}
+			if _, err := os.Stat(filepath.Join(o, "KEEP")); err == nil {
+				continue
+			}
+			_ = os.RemoveAll(o)
+		}
+	}
 	d.scratch = filepath.Join(base, fmt.Sprintf("verif.%d", os.Getpid()))
 	d.outBase = filepath.Join(d.scratch, "out")
 	_ = os.MkdirAll(d.outBase, 0755)
 	if d.keep {
+		_ = os.WriteFile(filepath.Join(d.scratch, "KEEP"), nil, 0644)
 		fmt.Printf("keeping run directories under %s\n", d.outBase)
 	} else {
 		defer os.RemoveAll(d.scratch)
